@@ -41,17 +41,17 @@ type vfPeer struct {
 	// OnReply is called just before the reply to request id is written.
 	OnReply func(id uint32)
 
-	mu      sync.Mutex
-	cond    *sync.Cond
-	held    []vfHeld
-	seq     int
+	mu       sync.Mutex
+	cond     *sync.Cond
+	held     []vfHeld
+	seq      int
 	answered map[int]bool
-	lowest  int // lowest seq not yet answered
-	stats   vfPeerStats
-	rdEOF   bool
-	done    chan struct{}
-	wdone   chan struct{}
-	werr    error
+	lowest   int // lowest seq not yet answered
+	stats    vfPeerStats
+	rdEOF    bool
+	done     chan struct{}
+	wdone    chan struct{}
+	werr     error
 }
 
 func vfStartPeer(e *vfEnd, p *vfPeer) *vfPeer {
